@@ -16,21 +16,27 @@ LEVEL_NOTE = ("Trusted: Coq kernel; hand-written model (validated by corresponde
               "in pyformlang shows up as a language difference found by the correspondence leg.")
 RULE = ("random epsilon-NFA/NFA/DFA (1-5 states, 1-3 symbols; profiles sparse/dense/eps/epscycle/dead/unreach/multi; plain/int/adversarial "
         "names incl. merged-name look-alikes) x {accepts on all words up to length 3|4 over alphabet + a foreign symbol, to_deterministic, "
-        "remove_epsilon_transitions, minimize, copy}; non-trivial = at least 2 transitions, a start and a final state; distinct by canonical JSON of (op, automaton)")
+        "remove_epsilon_transitions, minimize (mostly 5-8 state DFAs), copy}, a quarter of them built incrementally with discarded queries in between, "
+        "plus edit histories (add/remove transitions, start and final states on a live automaton, queries after every edit, each compared "
+        "with the model of the automaton as it is then); non-trivial = at least 2 transitions, a start and a final state; distinct by canonical JSON of (op, automaton)")
 EXPLANATION = ("Theorems about the Gallina model (Properties/C01.v) + differential correspondence model vs pyformlang on accepts bits and, "
                "for each transformer, certified language equivalence between the input and the automaton pyformlang returns, plus the advertised shape.")
 
-OPS = ["accepts", "accepts", "to_deterministic", "remove_epsilon_transitions", "minimize", "copy"]
+OPS = ["accepts", "accepts", "to_deterministic", "remove_epsilon_transitions", "minimize", "minimize", "copy"]
 
 
 def generate(ctx):
-    n = 1200 if ctx.tier == "quick" else 12000
+    n = 1750 if ctx.tier == "quick" else 14000
     cases = []
     for i in range(n):
         names = ctx.rng.choice(["plain", "plain", "int", "adv"])
         op = OPS[i % len(OPS)]
-        spec = falib.rand_fa(ctx.rng, names=names)
+        spec = falib.rand_fa(ctx.rng, names=names, history_p=0.25)
+        if op == "minimize" and ctx.rng.random() < 0.8:
+            spec = falib.rand_big_dfa(ctx.rng)
         cases.append({"op": op, "fa": spec, "maxlen": 3 if ctx.tier == "quick" else 4})
+    for i in range(150 if ctx.tier == "quick" else 1500):
+        cases.append(fa_engine.rand_history(ctx.rng))
     return cases
 
 
